@@ -111,7 +111,7 @@ class LoopSpec:
 
     def havoc(self, interp, fr, st):
         ctx = interp.ctx
-        names = assigned_names(st)
+        names = assigned_names(st) | set(getattr(self, "extra_havoc", ()))
         for n in sorted(names):
             if n in fr.locals:
                 fr.locals[n] = havoc_value(ctx, fr.locals[n], self.types.get(n), n)
@@ -119,6 +119,9 @@ class LoopSpec:
                 fr.locals[n] = fresh_of_type(ctx, self.types[n], n)
         sf = self._frame(interp, fr)
         for m in self.modifies:
+            if callable(m):
+                m(interp, fr)          # custom havoc written in the sidecar (e.g. only the bounds of a window sequence)
+                continue
             try:
                 havoc_path(interp, sf, m, self.types)
             except PyExc as pe:
@@ -417,6 +420,7 @@ class Prog:
         self.special_forms = dict(SPECIAL_FORMS)
         self.spec_env = {}
         self.pure_foreign = set()
+        self.usort_models = {}
         self.func_specs = {}
         self.modular = {}
         self.dict_maker = None
